@@ -81,6 +81,7 @@ func runC02(r *Run, verifDir string) {
 	c.r7Errors()
 	c.r8FailStop()
 	c.r9LengthArith()
+	c.r10Allocs()
 }
 
 func isPlanTime(fn *ssa.Function) (string, bool) {
@@ -660,20 +661,38 @@ func (c *c02ctx) r3Typestate() {
 		})
 		// the value-length test is made against the PADDED length: Next() advances by 8+paddedLen()
 		padOK, lenOnly := false, token.NoPos
+		// padPass[cmp] = the outcome of cmp on which "bytes available >= paddedLen()" holds
+		padPass := map[*ssa.BinOp]bool{}
 		allInstrs(vf, func(in ssa.Instruction) {
 			bo, ok := in.(*ssa.BinOp)
 			if !ok || (bo.Op != token.LSS && bo.Op != token.GEQ && bo.Op != token.GTR && bo.Op != token.LEQ) {
 				return
 			}
 			var lenSide, other ssa.Value
+			lenLeft := false
 			if y, isLen := lenOperand(bo.X); isLen {
-				lenSide, other = y, bo.Y
+				lenSide, other, lenLeft = y, bo.Y, true
 			} else if y, isLen := lenOperand(bo.Y); isLen {
 				lenSide, other = y, bo.X
 			}
 			if lenSide == nil {
 				return
 			}
+			defer func() {
+				if c, ok := other.(*ssa.Call); ok && callID(&c.Call).name == "paddedLen" {
+					if sl, ok := lenSide.(*ssa.Slice); ok {
+						if k, ok := constIntVal(sl.Low); ok && k == 8 {
+							// avail < padded (fail when true) / avail >= padded (pass when true); mirrored when the length is on the right
+							switch {
+							case lenLeft && bo.Op == token.LSS, !lenLeft && bo.Op == token.GTR:
+								padPass[bo] = false
+							case lenLeft && bo.Op == token.GEQ, !lenLeft && bo.Op == token.LEQ:
+								padPass[bo] = true
+							}
+						}
+					}
+				}
+			}()
 			// len(buf[8:]) only (a slice of the buffer from offset 8)
 			sl, ok := lenSide.(*ssa.Slice)
 			if !ok {
@@ -691,6 +710,60 @@ func (c *c02ctx) r3Typestate() {
 				}
 			}
 		})
+		// ... and every success exit for a non-empty buffer lies beyond the passing edge of that test
+		if padOK && len(padPass) > 0 {
+			passed := func(conds []domCond) bool {
+				for _, dc := range conds {
+					if bo, ok := dc.cond.(*ssa.BinOp); ok {
+						if want, isPad := padPass[bo]; isPad && dc.outcome == want {
+							return true
+						}
+						// the empty buffer (end of input) is the other legitimate success
+						if y, isLen := lenOperand(bo.X); isLen {
+							if k, isK := constIntVal(bo.Y); isK && k == 0 && ((bo.Op == token.EQL && dc.outcome) || (bo.Op == token.NEQ && !dc.outcome) || (bo.Op == token.GTR && !dc.outcome)) {
+								if u, ok := y.(*ssa.UnOp); ok {
+									if _, fld, ok := fieldAddrOf(u.X); ok && fname(fld) == "buf" {
+										return true
+									}
+								}
+							}
+						}
+					}
+				}
+				return false
+			}
+			unguarded := token.NoPos
+			var visit func(v ssa.Value, at *ssa.BasicBlock, extra []domCond, pos token.Pos, d int)
+			visit = func(v ssa.Value, at *ssa.BasicBlock, extra []domCond, pos token.Pos, d int) {
+				if d > 4 {
+					return
+				}
+				if ph, ok := v.(*ssa.Phi); ok {
+					for i, e := range ph.Edges {
+						pr := ph.Block().Preds[i]
+						var ex []domCond
+						if cnd, isTrue, ok := edgeTaken(pr, ph.Block()); ok {
+							ex = append(ex, domCond{cnd, isTrue, pr})
+						}
+						visit(e, pr, ex, pos, d+1)
+					}
+					return
+				}
+				if isNilConst(v) && !passed(append(dominatingConds(at), extra...)) {
+					unguarded = pos
+				}
+			}
+			for _, b := range vf.Blocks {
+				if ret, ok := b.Instrs[len(b.Instrs)-1].(*ssa.Return); ok && len(ret.Results) == 1 {
+					visit(ret.Results[0], b, nil, ret.Pos(), 0)
+				}
+			}
+			if unguarded.IsValid() {
+				r.Bad("C02.R3", "ttlv.ttlvReader.validate/padded-extent-all-paths", unguarded, "validate() can accept a non-empty item on a path that has not found the bytes available >= paddedLen(): Next() — which advances by 8+paddedLen() — and the typed reads then slice beyond the buffer (panic in the read loop)")
+			} else {
+				r.OK("C02.R3", "ttlv.ttlvReader.validate/padded-extent-all-paths", vf.Pos(), "every success exit of validate() is an empty buffer or lies beyond the passing edge of the padded-extent test")
+			}
+		}
 		if lenOnly.IsValid() && !padOK {
 			r.Bad("C02.R3", "ttlv.ttlvReader.validate/padded-extent", lenOnly, "validate() compares the bytes available with the declared length, not with the padded length: an item whose padding is missing at the end of its enclosing structure passes, and Next() — which advances by 8+paddedLen() — slices beyond the buffer (panic in the read loop)")
 		} else if padOK {
@@ -2611,4 +2684,129 @@ func aliasWriteDisjoint(fns []*ssa.Function, fn *ssa.Function, target ssa.Value,
 		return "", false
 	}
 	return fmt.Sprintf("%s writes its parameter only under a condition on the first byte that every caller passing the input itself excludes (%d call site(s), both predicates evaluated for lengths 0..64, 2^20 and the 256 byte values): the input is never modified", fnKey(fn), nSites), true
+}
+
+// ---------------------------------------------------------------- R10
+// r10Allocs: a decoder never sizes an allocation by a number it has read. make([]T, n) / make([]T, 0, n) with an
+// input-chosen n panics for a negative n (makeslice: len out of range) and reserves memory for a huge one before a single
+// item has been seen. A size is structural when it is a constant, the len/cap of something, or arithmetic over those.
+func (c *c02ctx) r10Allocs() {
+	r := c.r
+	r.Rule("C02.R10", "no allocation in the decode path is sized by a number read from the input: sizes are constants, len/cap of a value, or arithmetic over those", 1)
+	var structural func(v ssa.Value, d int) bool
+	structural = func(v ssa.Value, d int) bool {
+		if d > 6 {
+			return false
+		}
+		if _, ok := constIntVal(v); ok {
+			return true
+		}
+		switch x := v.(type) {
+		case *ssa.Call:
+			if b, ok := x.Call.Value.(*ssa.Builtin); ok {
+				switch b.Name() {
+				case "len", "cap":
+					return true
+				case "min", "max":
+					for _, a := range x.Call.Args {
+						if !structural(a, d+1) {
+							return false
+						}
+					}
+					return true
+				}
+			}
+			id := callID(&x.Call)
+			if id.pkg == "reflect" && (id.name == "Len" || id.name == "Cap" || id.name == "NumField" || id.name == "NumMethod") {
+				return true
+			}
+			if id.name == "Len" && len(x.Call.Args) <= 1 {
+				return true // (*bytes.Buffer).Len, (*big.Int).BitLen-like size accessors of a value already held
+			}
+		case *ssa.BinOp:
+			switch x.Op {
+			case token.ADD, token.SUB, token.MUL, token.QUO, token.REM, token.SHL, token.SHR, token.AND, token.AND_NOT:
+				return structural(x.X, d+1) && structural(x.Y, d+1)
+			}
+		case *ssa.Convert:
+			return structural(x.X, d+1)
+		case *ssa.Phi:
+			for _, e := range x.Edges {
+				if e != v && !structural(e, d+1) {
+					return false
+				}
+			}
+			return true
+		case *ssa.Parameter:
+			// a size handed in by the caller: decided at the call sites
+			fn := x.Parent()
+			pi := -1
+			for i, q := range fn.Params {
+				if q == x {
+					pi = i
+				}
+			}
+			sites := 0
+			okAll := true
+			for _, f := range c.fns {
+				allInstrs(f, func(in ssa.Instruction) {
+					if call := callOf(in); call != nil && call.StaticCallee() == fn && pi < len(call.Args) {
+						sites++
+						if !structural(call.Args[pi], d+1) {
+							okAll = false
+						}
+					}
+				})
+			}
+			return sites > 0 && okAll
+		}
+		return false
+	}
+	n := 0
+	for _, fn := range c.fns {
+		if _, plan := isPlanTime(fn); plan {
+			continue
+		}
+		allInstrs(fn, func(in ssa.Instruction) {
+			var sizes []ssa.Value
+			what := ""
+			switch x := in.(type) {
+			case *ssa.MakeSlice:
+				sizes, what = []ssa.Value{x.Len, x.Cap}, "make"
+			case *ssa.MakeMap:
+				if x.Reserve != nil {
+					sizes, what = []ssa.Value{x.Reserve}, "make(map)"
+				}
+			case *ssa.Call:
+				id := callID(&x.Call)
+				switch {
+				case id.pkg == "slices" && id.name == "Grow" && len(x.Call.Args) == 2:
+					sizes, what = []ssa.Value{x.Call.Args[1]}, "slices.Grow"
+				case id.pkg == "reflect" && id.name == "MakeSlice" && len(x.Call.Args) == 3:
+					sizes, what = []ssa.Value{x.Call.Args[1], x.Call.Args[2]}, "reflect.MakeSlice"
+				case id.name == "Grow" && (id.pkg == "bytes" || id.pkg == "strings") && len(x.Call.Args) == 2:
+					sizes, what = []ssa.Value{x.Call.Args[1]}, id.pkg+".Grow"
+				}
+			}
+			if what == "" {
+				return
+			}
+			n++
+			key := c.key(fn, "alloc")
+			if idOf(fn).is(ttlvPath, "Stream", "Recv") && what == "slices.Grow" {
+				// the one sanctioned input-sized allocation: the receive buffer, whose growth is decided by C07.S3 (the
+				// announced size has been compared with the configured maximum on every path) and C07.S6 (positive amount)
+				r.OK("C02.R10", key, in.Pos(), "receive buffer growth: bounded by the configured maximum (C07.S3) and positive (C07.S6)")
+				return
+			}
+			for _, sz := range sizes {
+				if sz != nil && !structural(sz, 0) {
+					r.Bad("C02.R10", key, in.Pos(), "%s in %s is sized by a value that is not a constant or the length of something already held (a number decoded from the input): a negative number panics (makeslice: len/cap out of range) and a huge one reserves that much memory before any item was read", what, fnKey(fn))
+					return
+				}
+			}
+			r.OK("C02.R10", key, in.Pos(), "%s sized structurally", what)
+		})
+	}
+	r.Infof("C02.R10: %d allocation site(s) with a size operand in the decode path", n)
 }
